@@ -440,7 +440,13 @@ void run_harris(bool with_traversal, const ExecCtx& ctx, ExecOut& out) {
     ad = new Ad();
     xrt::quiet_begin();
   }
-  const int nkeys = rng.range(2, 4);
+  // key universe: 2-4 keys (maximal conflicts per key) or, in a third of the executions, 5-8 keys that are mostly present, so that bucket
+  // lists are long enough for searches that restart in the middle of a list and walk several nodes before they have to retry
+  const bool shaped_restart = !with_traversal && rng.chance(1, 8); // see below: needs the full universe of 8 keys
+  const bool wide = shaped_restart || rng.chance(1, 3);
+  const int nkeys = shaped_restart ? 8 : wide ? rng.range(5, 8) : rng.range(2, 4);
+  if (wide)
+    counters().add("wide_universe_executions");
   int64_t next_val = 1;
   History h;
   h.weak = ctx.weak;
@@ -459,8 +465,13 @@ void run_harris(bool with_traversal, const ExecCtx& ctx, ExecOut& out) {
     h.ops.push_back(o);
   };
   // prefix: some keys present
+  if (shaped_restart) {
+    counters().add("shaped_restart_programs");
+    for (int k : {1, 2, 3, 8})
+      main_op(H_EMPLACE, k, next_val++);
+  } else
   for (int k = 1; k <= nkeys; ++k)
-    if (rng.chance(1, 2))
+    if (rng.chance(wide ? 3 : 1, wide ? 4 : 2))
       main_op(H_EMPLACE, k, next_val++);
   int nthreads = with_traversal ? rng.range(2, 4) : rng.range(2, 4);
   std::vector<Worker<Ad>> workers((size_t)nthreads);
@@ -475,6 +486,25 @@ void run_harris(bool with_traversal, const ExecCtx& ctx, ExecOut& out) {
       w.travs.resize((size_t)w.ntrav);
       w.erase_at = rng.chance(1, 3) ? (int)rng.below(3) : -1;
       w.variant = (int)rng.below(3);
+      continue;
+    }
+    // shaped (an eighth of the wide executions): a search that is restarted in the middle of a bucket list. Thread 1 inserts a high key
+    // (its insertion CAS fails when somebody links a node behind its predecessor, and the search resumes from that predecessor);
+    // thread 2 inserts twice behind that predecessor, erases the predecessor and inserts once more further down, which forces the
+    // resumed search to retry from its start node once again
+    if (shaped_restart && !with_traversal && t < 2 && nkeys >= 8) {
+      static const uint8_t ins[] = {H_EMPLACE, H_EMPLACE_OR_GET, H_GET_OR_EMPLACE, H_GET_OR_EMPLACE_LAZY};
+      if (t == 0) {
+        w.prog.push_back(POp{ins[rng.below(4)], 7, next_val++});
+        if (rng.chance(1, 2))
+          w.prog.push_back(POp{H_FIND, 7, next_val++});
+      } else {
+        w.prog.push_back(POp{ins[rng.below(4)], 4, next_val++});
+        w.prog.push_back(POp{ins[rng.below(4)], 5, next_val++});
+        w.prog.push_back(POp{rng.chance(1, 3) ? (uint8_t)H_FIND_ERASE_IT : (uint8_t)H_ERASE, 3, next_val++});
+        w.prog.push_back(POp{ins[rng.below(4)], 6, next_val++});
+      }
+      w.recs.resize(w.prog.size());
       continue;
     }
     int nops = rng.range(1, with_traversal ? 5 : 6);
